@@ -949,6 +949,9 @@ fn split_text(s: &str) -> Vec<String> {
     let mut block_comment_len = 0;
     let mut is_star_prev = false;
 
+    // Inside a string literal a backslash escapes the next character: \" does not end it.
+    let mut is_escaped = false;
+
     let mut iter = s.chars().peekable();
     while let Some(c) = iter.next() {
 
@@ -999,7 +1002,7 @@ fn split_text(s: &str) -> Vec<String> {
             x = String::from("");
             x.push(c);
             is_string = true;
-        } else if c == '"' && is_string {
+        } else if c == '"' && is_string && !is_escaped {
             x.push(c);
             ret.push(x);
             x = String::from("");
@@ -1018,6 +1021,7 @@ fn split_text(s: &str) -> Vec<String> {
 
         is_backquote_prev = c == '`';
         is_star_prev = is_star;
+        is_escaped = is_string && c == '\\' && !is_escaped;
     }
     ret.push(x);
     ret
